@@ -1753,6 +1753,8 @@ mod mt {
         fn show(&self) -> String;
         /// pairwise distinct values for the terminal capacity probe (TFILL)
         fn from_index(i: u64) -> Self;
+        /// the value dddmp's `import_ascii` obtains from a terminal description (`M::Terminal::parse`)
+        fn parse_text(s: &str) -> Option<Self>;
     }
     impl Num for I64 {
         fn parse(s: &str) -> Self {
@@ -1765,6 +1767,9 @@ mod mt {
         }
         fn from_index(i: u64) -> Self {
             I64::Num(1_000_000 + i as i64)
+        }
+        fn parse_text(s: &str) -> Option<Self> {
+            <I64 as oxidd_dump::ParseTagged<()>>::parse(s).map(|p| p.0)
         }
         fn show(&self) -> String {
             match self {
@@ -1781,6 +1786,9 @@ mod mt {
         }
         fn from_index(i: u64) -> Self {
             F64::from(1.0e6 + i as f64)
+        }
+        fn parse_text(s: &str) -> Option<Self> {
+            <F64 as oxidd_dump::ParseTagged<()>>::parse(s).map(|p| p.0)
         }
         fn show(&self) -> String {
             format!("{:016x}", f64::from(*self).to_bits())
@@ -1808,6 +1816,15 @@ mod mt {
                 match tok[0] {
                     "CONSTN" => {
                         let v = T::parse(tok[2]);
+                        let f = oom(core.mref.with_manager_shared(|m| Fun::<T>::constant(m, v)))?;
+                        Ok(core.put(tok[1], f))
+                    }
+                    "PARSEC" => {
+                        // PARSEC dst text : the constant whose value is parsed from a terminal description
+                        // the way dddmp's import_ascii does (`M::Terminal::parse(text)`, then get_terminal)
+                        let Some(v) = T::parse_text(tok[2]) else {
+                            return Err("skip".into());
+                        };
                         let f = oom(core.mref.with_manager_shared(|m| Fun::<T>::constant(m, v)))?;
                         Ok(core.put(tok[1], f))
                     }
